@@ -134,6 +134,25 @@ func (c *Ctx) checkBCE(rule string, pkgs []string, scope map[*ssa.Function]bool,
 			L.OK(rule, fname, expr, pos, "not proven by the compiler, proven by linear bounds: "+det)
 			continue
 		}
+		// (a1) proven in the function's own inlined view (locals grouped into a struct with small
+		// methods become registers again there)
+		if v := c.viewOf(st.fn); v != st.fn {
+			n, okAll := 0, true
+			for _, f := range withAnons(v) {
+				for _, s2 := range indexSites(f) {
+					if c.views.OrigInstr[s2.in] == st.s.in {
+						n++
+						if ok, _ := c.proveSite(newLinCtx(c, f), s2); !ok {
+							okAll = false
+						}
+					}
+				}
+			}
+			if n > 0 && okAll {
+				L.OK(rule, fname, expr, pos, "not proven by the compiler; proven by linear bounds on the inlined view of the function")
+				continue
+			}
+		}
 		// (a2) the site is in a private helper: proven in the inlined view of every function that
 		// reaches the helper (where the caller's own checks are visible)
 		if ok, det := c.proveSiteInCallers(st.fn, st.s.in); ok {
@@ -184,6 +203,19 @@ func (c *Ctx) proveSite(lc *linCtx, s indexSite) (bool, string) {
 		goals = append(goals, consLE(linConst(0), lo, "0 <= low"), consLE(lo, hi, "low <= high"), consLE(hi, ln, "high <= len"))
 	} else {
 		ix := lc.of(s.idx)
+		// []rune(str)[0]: a string of at least one byte has at least one rune
+		if cv, ok := s.base.(*ssa.Convert); ok && ix.isConst() && ix.c == 0 {
+			if sl, ok := cv.Type().Underlying().(*types.Slice); ok {
+				if eb, ok := sl.Elem().Underlying().(*types.Basic); ok && eb.Kind() == types.Int32 {
+					if sb, ok := cv.X.Type().Underlying().(*types.Basic); ok && sb.Info()&types.IsString != 0 {
+						ok2, det := lc.proveAll(b, nil, consLE(linConst(1), lc.lenOf(cv.X), "the string has at least one byte"))
+						if ok2 {
+							return true, "first rune of a non-empty string: " + det
+						}
+					}
+				}
+			}
+		}
 		goals = append(goals, consLE(linConst(0), ix, "0 <= index"), consLT(ix, ln, "index < len"))
 	}
 	var dets []string
@@ -246,44 +278,13 @@ func (c *Ctx) enclosingScopeFunc(file string, line int, scope map[*ssa.Function]
 // it ends in a function whose inlined view contains the body of h (no call of h is left in that
 // view), and in each of those views every copy of the index instruction is proven in bounds.
 func (c *Ctx) proveSiteInCallers(h *ssa.Function, site ssa.Instruction) (bool, string) {
-	if h.Parent() != nil || token.IsExported(h.Name()) {
+	rootList, ok := c.helperRoots(h)
+	if !ok {
 		return false, ""
 	}
-	if ok, _ := c.privateHelperOf(h, func(string) bool { return false }); !ok {
-		// privateHelperOf also fills the callers index; accept only a helper with static callers and no value use
-		if c.valueUse[h] || len(c.callersIdx[h]) == 0 {
-			return false, ""
-		}
-	}
-	// roots: walk up the static callers until a function that is not itself a private helper
 	roots := map[*ssa.Function]bool{}
-	seen := map[*ssa.Function]bool{}
-	var up func(f *ssa.Function, depth int) bool
-	up = func(f *ssa.Function, depth int) bool {
-		if depth > 4 {
-			return false
-		}
-		if seen[f] {
-			return true
-		}
-		seen[f] = true
-		for _, g := range c.callersIdx[f] {
-			r := g
-			for r.Parent() != nil {
-				r = r.Parent()
-			}
-			if !token.IsExported(r.Name()) && !c.valueUse[r] && len(c.callersIdx[r]) > 0 && r.Pkg == h.Pkg {
-				if !up(r, depth+1) {
-					return false
-				}
-				continue
-			}
-			roots[r] = true
-		}
-		return true
-	}
-	if !up(h, 0) || len(roots) == 0 {
-		return false, ""
+	for _, r := range rootList {
+		roots[r] = true
 	}
 	var dets []string
 	for r := range roots {
@@ -319,4 +320,52 @@ func (c *Ctx) proveSiteInCallers(h *ssa.Function, site ssa.Instruction) (bool, s
 	}
 	sort.Strings(dets)
 	return true, strings.Join(dets, ", ")
+}
+
+// helperRoots: h is an unexported function never used as a value; returns the functions at the top
+// of its static call chains (those that are not themselves such helpers of the same package). Every
+// execution of h happens inside a call of one of them.
+func (c *Ctx) helperRoots(h *ssa.Function) ([]*ssa.Function, bool) {
+	if h.Parent() != nil || token.IsExported(h.Name()) {
+		return nil, false
+	}
+	c.privateHelperOf(h, func(string) bool { return false }) // fills the callers index
+	if c.valueUse[h] || len(c.callersIdx[h]) == 0 {
+		return nil, false
+	}
+	roots := map[*ssa.Function]bool{}
+	seen := map[*ssa.Function]bool{}
+	var up func(f *ssa.Function, depth int) bool
+	up = func(f *ssa.Function, depth int) bool {
+		if depth > 4 {
+			return false
+		}
+		if seen[f] {
+			return true
+		}
+		seen[f] = true
+		for _, g := range c.callersIdx[f] {
+			r := g
+			for r.Parent() != nil {
+				r = r.Parent()
+			}
+			if !token.IsExported(r.Name()) && !c.valueUse[r] && len(c.callersIdx[r]) > 0 && r.Pkg == h.Pkg {
+				if !up(r, depth+1) {
+					return false
+				}
+				continue
+			}
+			roots[r] = true
+		}
+		return true
+	}
+	if !up(h, 0) || len(roots) == 0 {
+		return nil, false
+	}
+	var out []*ssa.Function
+	for r := range roots {
+		out = append(out, r)
+	}
+	sort.Slice(out, func(i, j int) bool { return c.P.FuncName(out[i]) < c.P.FuncName(out[j]) })
+	return out, true
 }
